@@ -30,6 +30,7 @@ type c10Op struct {
 	Block      string        // for *-during reads: nothing | first-fragment | partial-payload | partial-header
 	Beside     string        // for *-during writes: "" | ping | peer-ping: a control frame queued behind the blocked write
 	Chunks     []int         // write ops: non-empty = streamed through Writer with these chunk sizes
+	K          int           // header-buffered: bytes of the next frame's header that arrive together with the message in front of it
 }
 
 type c10Case struct {
@@ -70,7 +71,14 @@ func genC10(rt *rapid.T) c10Case {
 			}
 		} else if i == n-1 && during {
 			o.Ctx = rapid.SampledFrom([]string{"cancel-during", "deadline-during"}).Draw(rt, "ctxDuring")
-			o.Block = rapid.SampledFrom([]string{"nothing", "first-fragment", "partial-payload", "partial-header", "pong-blocked"}).Draw(rt, "block")
+			o.Block = rapid.SampledFrom([]string{"nothing", "first-fragment", "partial-payload", "partial-header", "pong-blocked", "header-buffered", "header-buffered"}).Draw(rt, "block")
+			if o.Block == "header-buffered" {
+				// a complete small message and the first K bytes of the next frame's header arrive in
+				// one piece: the small message is read first, then the call under test blocks in the
+				// middle of a header whose beginning is already buffered
+				o.Len = rapid.SampledFrom([]int{200, 70000}).Draw(rt, "bufferedLen")
+				o.K = rapid.IntRange(1, 13).Draw(rt, "bufferedHeaderBytes")
+			}
 			o.Beside = rapid.SampledFrom([]string{"", "ping", "peer-ping"}).Draw(rt, "beside")
 			if o.Len < 3 {
 				o.Len = 300
@@ -317,6 +325,17 @@ func runC10(t fataler, c c10Case) (string, c10Result) {
 		case "nothing":
 		case "first-fragment":
 			p.send(frames[0])
+		case "header-buffered":
+			first := ref.Frame{Fin: true, Opcode: ref.OpText, Payload: []byte("message in front of the stalled header")}
+			next := ref.Frame{Fin: true, Opcode: ref.OpBinary, Payload: raw, Rsv1: comp}
+			_, b0, _ := finishMasking([]ref.Frame{first}, c.Mode.Client)
+			_, b1, _ := finishMasking([]ref.Frame{next}, c.Mode.Client)
+			hdr := len(b1) - len(raw)
+			k := o.K
+			if k >= hdr {
+				k = hdr - 1
+			}
+			p.sendRaw(append(append([]byte(nil), b0...), b1[:k]...))
 		case "partial-payload", "partial-header":
 			_, b, _ := finishMasking(frames[:1], c.Mode.Client)
 			hdr := len(b) - len(frames[0].Payload)
@@ -411,6 +430,16 @@ func runC10(t fataler, c c10Case) (string, c10Result) {
 				// the peer sends a Ping but accepts no bytes: the library blocks writing the Pong from inside Read
 				lc.End.SetInBudget(0)
 				p.send(ref.Frame{Fin: true, Opcode: ref.OpPing, Payload: expand(ckText, 3, 100)})
+			} else if during && o.Block == "header-buffered" {
+				oo := o
+				oo.Frags, oo.CtlInside = 1, false
+				sendMsg(oo, payload, "header-buffered")
+				var fe error
+				var fb []byte
+				fd := e.Call(func() { _, fb, fe = conn.Read(base) })
+				if !within(fd, 10*time.Second) || fe != nil || string(fb) != "message in front of the stalled header" {
+					return fmt.Sprintf("op %d: the message in front of the stalled header was not delivered: %q, %v", i, fb, fe), res
+				}
 			} else if during {
 				sendMsg(o, payload, o.Block)
 			} else {
